@@ -103,6 +103,11 @@ func spec(nonce int) []byte {
 				"multipart/form-data": map[string]any{"schema": map[string]any{"$ref": "#/components/schemas/Form"}}}},
 			"responses": map[string]any{"200": map[string]any{"description": "ok"}}}},
 	}, map[string]any{"schemas": map[string]any{"Item": item,
+		// a discriminator whose mapping values are bare schema names
+		"Pet": map[string]any{"oneOf": []any{map[string]any{"$ref": "#/components/schemas/Dog"}, map[string]any{"$ref": "#/components/schemas/Cat"}},
+			"discriminator": map[string]any{"propertyName": "petType", "mapping": map[string]any{"dog": "Dog", "cat": "#/components/schemas/Cat"}}},
+		"Dog": map[string]any{"type": "object", "required": []any{"petType"}, "properties": map[string]any{"petType": map[string]any{"type": "string"}, "bark": map[string]any{"type": "boolean"}}},
+		"Cat": map[string]any{"type": "object", "required": []any{"petType"}, "properties": map[string]any{"petType": map[string]any{"type": "string"}, "lives": map[string]any{"type": "integer", "maximum": 9}}},
 		"Form": map[string]any{"type": "object", "properties": map[string]any{"name": map[string]any{"type": "string"}},
 			"additionalProperties": map[string]any{"type": "object", "properties": map[string]any{"label": map[string]any{"type": "string"}}}}},
 		"headers": map[string]any{"Meta": map[string]any{"content": map[string]any{"application/json": map[string]any{"schema": map[string]any{"type": "object", "properties": map[string]any{"v": map[string]any{"type": "integer"}}}}}}}})
@@ -316,6 +321,18 @@ func (w *world) run(op Op) string {
 		}
 		b, _ := json.Marshal(v)
 		return "visit-valid:" + string(b)
+	case "visit-pet":
+		pets := []string{`{"petType":"dog","bark":true}`, `{"petType":"cat","lives":3}`, `{"petType":"cat","lives":30}`, `{"petType":"Dog","bark":true}`, `{"petType":"bird"}`}
+		var v any
+		_ = json.Unmarshal([]byte(pets[op.Variant%len(pets)]), &v)
+		var opts []openapi3.SchemaValidationOption
+		if op.Variant%2 == 0 {
+			opts = append(opts, openapi3.MultiErrors())
+		}
+		if err := w.doc.Components.Schemas["Pet"].Value.VisitJSON(v, opts...); err != nil {
+			return "pet-invalid"
+		}
+		return "pet-valid"
 	case "match", "visit-typed":
 		// the option-less helpers: IsMatching and the typed VisitJSON* entry points
 		var v any
@@ -453,7 +470,7 @@ func trunc(s string) string {
 	return s
 }
 
-var opKinds = []string{"route-g", "route-l", "request", "request", "request-skip", "request-ci", "response", "visit", "visit-multi", "visit-req", "visit-ci", "gen", "match", "match", "visit-typed"}
+var opKinds = []string{"route-g", "route-l", "request", "request", "request-skip", "request-ci", "response", "visit", "visit-multi", "visit-req", "visit-ci", "gen", "match", "match", "visit-typed", "visit-pet"}
 
 func caseInsensitive(expr string) (openapi3.RegexMatcher, error) {
 	return regexp.Compile("(?i)" + expr)
